@@ -1589,6 +1589,31 @@ def m_eq(eng, st, fr, fn, args, t):
             sty = sty.split(" ", 1)[1] if " " in sty else ""
         a = eng.pointee_of(st, a)
         b = eng.pointee_of(st, b)
+    if sty.startswith("core::option::Option<") and (_opt_variant(a) or _opt_variant(b)):
+        # Option == Option with one side a literal Some(..) / None: decided by the other side's variant, then the payloads
+        lit, other = (b, a) if _opt_variant(b) else (a, b)
+        out = []
+        for (s2, var, payload) in _fork_option(eng, st.fork(), other):
+            if var != _opt_variant(lit):
+                res = mk_bool(False)
+            elif var == "None":
+                res = mk_bool(True)
+            else:
+                x, y = payload, lit[4][0][1]
+                inner = sty[len("core::option::Option<"):-1].strip()
+                while inner.startswith("&"):
+                    inner = inner[1:].lstrip()
+                    if inner.startswith("mut "):
+                        inner = inner[4:]
+                    if inner.startswith("'"):
+                        inner = inner.split(" ", 1)[1] if " " in inner else ""
+                    x = eng.pointee_of(s2, x)
+                    y = eng.pointee_of(s2, y)
+                res = mk_bin("Eq", x, y)
+            if fn["name"] == "ne":
+                res = mk_not(res)
+            out.append((s2, res))
+        return out
     r = mk_bin("Eq", a, b)
     if a == b and _reflexive_type(eng, sty):
         r = mk_bool(True)       # x == x for a type without floats inside (NaN is the only irreflexive value)
